@@ -444,6 +444,7 @@ pub fn family(name: &str, _tier: Tier) -> Vec<Prog> {
         "shapes/pending" => pending_shapes(),
         "shapes/bindvars" => bindvar_shapes(),
         "shapes/readopt" => readopt_shapes(),
+        "c05/on_update" => on_update_shapes(),
         // node creation interleaved with everything else (C01 "create node"): the derived nodes do not exist when the
         // history starts and appear one by one through `CreateNext` -- either all of them, or only the last one (a new
         // dependant of nodes that have long been computed); sinks observable, one observer at a time
@@ -1021,6 +1022,36 @@ pub fn readopt_shapes() -> Vec<Prog> {
     out
 }
 
+/// Nodes that carry an `Incr::on_update` handler but no observer: a handler is not a reason to keep a node (and what is
+/// below it) computed. The handler is installed from the start on an inner node, so that the short histories
+/// "observed, released (observer dropped / a bind switches away), input written" fit the quick depth (after seed C05-g).
+pub fn on_update_shapes() -> Vec<Prog> {
+    use Rhs::*;
+    let k = |c: i32| n(Recipe::Const(c));
+    let shapes: Vec<(Vec<NodeSpec>, Vec<u8>, Vec<u8>, Vec<u8>)> = vec![
+        // (nodes, handlers, observable, start_observed)
+        (vec![var(0), map(F1::Inc, 0), map(F1::Inc, 1)], vec![1], vec![1, 2], vec![1]),
+        (vec![var(0), map(F1::Inc, 0), map(F1::Inc, 1)], vec![1], vec![1, 2], vec![2]),
+        (vec![var(0), var(0), map2(F2::Mix, 0, 1), map(F1::Inc, 2)], vec![2], vec![3, 2], vec![3]),
+        // a bind switches away from the branch that carries the handler
+        (vec![var(0), var(0), map(F1::Inc, 1), map(F1::Inc, 2), k(0), bind(0, E(3), E(4))], vec![3], vec![5], vec![5]),
+        (vec![var(0), var(0), map(F1::Inc, 1), map(F1::Inc, 2), k(0), bind(0, E(3), E(4))], vec![2], vec![5, 3], vec![5]),
+    ];
+    shapes
+        .into_iter()
+        .map(|(nodes, handlers, observable, start)| {
+            let mut p = Prog::new(nodes);
+            p.start_on_update = handlers;
+            p.alpha.observable = observable;
+            p.start_observed = start;
+            p.alpha.max_observers = 2;
+            p.alpha.values = vec![0, 1];
+            p.alpha.disallow = true;
+            p
+        })
+        .collect()
+}
+
 /// Bind closures that create a *variable* (`Rhs::FV`: `state.var` / `state.var_current_scope` of the captured value), drop
 /// its handle before returning and hand back the watch node: variables are created, become necessary, are orphaned and torn
 /// down in the middle of stabilises; with a pinned bind the watch nodes can be observed and subscribed to directly.
@@ -1107,6 +1138,9 @@ pub fn xp_shapes(writes: bool) -> Vec<Prog> {
         (vec![var(0), var(1), bind(0, E(1), F(1)), xp(2), map(F1::Inc, 0)], vec![3, 4], 0),
         // two expert nodes in a row
         (vec![var(0), xp(0), xp(1), map(F1::Par, 0)], vec![1, 2, 3], 0),
+        // expert node over a map_ref: its edge callback is invoked from inside the map_ref's own "tell my parents" loop
+        // (after seed C13-g: a crash point there, then the drops)
+        (vec![var(0), var(1), n(Recipe::Zip(0, 1)), n(Recipe::MapRef(2)), xp(3)], vec![4, 3], 1),
     ];
     shapes
         .into_iter()
